@@ -513,7 +513,15 @@ impl Module {
                 wasmparser::Name::Local(l) => {
                     for f in l {
                         let f = f?;
-                        let func_id = indices.get_func(f.index)?;
+                        let func_id = match indices.get_func(f.index) {
+                            Ok(id) => id,
+                            // A broken function reference only costs the names of
+                            // that function's locals, not the rest of the section.
+                            Err(e) => {
+                                warn!("in name section: {}", e);
+                                continue;
+                            }
+                        };
                         for name in f.names {
                             let naming = name?;
                             // Looks like tools like `wat2wasm` generate empty
